@@ -13,7 +13,7 @@
    logging and everything the model does not contain is covered only by the canary search of the
    harness (rv c19). *)
 From Coq Require Import Strings.String Strings.Ascii.
-From RipV Require Import Base.Prelude Model.SecretFlow Proofs.SecretFlowProofs.
+From RipV Require Import Base.Prelude Model.SecretFlow Proofs.SecretFlowProofs Gen.SecretUses.
 
 (* Noninterference: for ALL fuels, scripts (provider / validator / tool behaviours), both entry points
    (thread message with per-request overrides, session input with the start-up environment config),
@@ -56,6 +56,20 @@ Theorem c19_doctor_reports_presence_and_source_only : forall (w : world) (d : do
     /\ d_followup d = r_followup r.
 Proof. exact doctor_presence_and_source_only. Qed.
 Print Assumptions c19_doctor_reports_presence_and_source_only.
+
+(* T1 (regenerated from /repo on every run by tools/gen/secret_uses.py): every syntactic use of a
+   secret-bearing value in crates/ripd/src and crates/rip-cli/src (non-test code) is of a kind of flow the
+   model has — declaration, copy between the secret-bearing records, resolution, presence test,
+   bearer_auth, request.header, header-name projection, secret env read / set — never an argument of a
+   formatting / printing / logging / panic macro, a serialisation, a field of a struct that is not
+   secret-bearing (an Event, the doctor summary) or an unclassifiable use; the Debug / Serialize /
+   Display capabilities of secret-bearing types are exactly the nine known today. *)
+Theorem c19_code_uses_within_model_flows :
+  gen_found_all = true
+  /\ Forall (fun k => exists u, use_kind_code u = k /\ u <> UFormat /\ u <> USerialize /\ u <> UOther) gen_use_kinds
+  /\ Forall (fun d => In d allowed_derives) gen_derives.
+Proof. exact gen_uses_within_model_flows. Qed.
+Print Assumptions c19_code_uses_within_model_flows.
 
 (* Non-vacuity: two worlds with different keys / header values / env values have the same low
    projection; in both the secret DOES leave the process — in the outgoing request only. *)
